@@ -93,6 +93,31 @@ def _get_uses_of(node: ast.AST, scope: ast.AST, source: str) -> Iterable[ast.Nam
             yield refnode
 
 
+def _reads(node: ast.AST, variable: ast.AST) -> bool:
+    """Whether node mentions variable (a name, attribute or subscript)."""
+    if node is None:
+        return False
+    wanted = core.unparse(variable)
+    return any(core.unparse(child) == wanted for child in core.walk(node, type(variable)))
+
+
+def _until_self_reference(matches: Sequence, variable: ast.AST) -> list:
+    """The matched statements up to the first one that reads the collection it updates, like
+    x[k] = len(x) or x.append(x[0]): that value depends on the statements before it, so it cannot
+    be merged into the expression that creates the collection."""
+    kept = []
+    for match in matches:
+        mentions = sum(
+            core.unparse(child) == core.unparse(variable)
+            for child in core.walk(match[0], type(variable))
+        )
+        if mentions > 1:
+            break
+        kept.append(match)
+
+    return kept
+
+
 def _get_variable_re_pattern(variable) -> str:
     return r"(?<![A-Za-z_\.])" + variable + r"(?![A-Za-z_])"
 
@@ -1546,6 +1571,8 @@ def replace_for_loops_with_dict_comp(source: str) -> str:
         body_node = n2
         generators = []
         transaction += 1
+        if sum(1 for _ in core.walk(n2, ast.Name(id=target))) > 1:
+            continue  # The loop reads what it has collected so far, e.g. x[k] = len(x)
 
         while core.match_template(
             body_node, (ast.For(body=[object]), ast.If(body=[object], orelse=[]))
@@ -1607,6 +1634,8 @@ def replace_for_loops_with_set_list_comp(source: str) -> str:
         body_node = n2
         generators = []
         transaction += 1
+        if sum(1 for _ in core.walk(n2, ast.Name(id=target))) > 1:
+            continue  # The loop reads what it has collected so far, e.g. x.append(len(x))
 
         while core.match_template(body_node, (for_template, if_template)):
             if isinstance(body_node, ast.If):
@@ -2792,6 +2821,10 @@ def replace_dict_assign_with_dict_literal(source: str) -> str:
     for transaction, (first, *matches) in enumerate(
         core.walk_sequence(root, *template, expand_last=True)
     ):
+        matches = _until_self_reference(matches, first.target)
+        if not matches:
+            continue
+
         replacement = ast.Assign(
             targets=[first.target],
             value=ast.Dict(
@@ -2825,6 +2858,10 @@ def replace_dict_update_with_dict_literal(source: str) -> str:
     for transaction, (first, *matches) in enumerate(
         core.walk_sequence(root, *template, expand_last=True)
     ):
+        matches = _until_self_reference(matches, first.target)
+        if not matches:
+            continue
+
         replacement = ast.Assign(
             targets=[first.target],
             value=ast.Dict(
@@ -2856,6 +2893,10 @@ def replace_dictcomp_assign_with_dict_literal(source: str) -> str:
     for transaction, (first, *matches) in enumerate(
         core.walk_sequence(root, *template, expand_last=True)
     ):
+        matches = _until_self_reference(matches, first.target)
+        if not matches:
+            continue
+
         replacement = ast.Assign(
             targets=[first.target],
             value=ast.Dict(
@@ -2885,6 +2926,10 @@ def replace_dictcomp_update_with_dict_literal(source: str) -> str:
     for transaction, (first, *matches) in enumerate(
         core.walk_sequence(root, *template, expand_last=True)
     ):
+        matches = _until_self_reference(matches, first.target)
+        if not matches:
+            continue
+
         replacement = ast.Assign(
             targets=[first.target],
             value=ast.Dict(
@@ -2919,6 +2964,11 @@ def replace_setcomp_add_with_union(source: str) -> str:
     for before, after, template_match in processing.find_replace(
         source, find, replace, yield_match=True
     ):
+        if _reads(template_match.something_else, template_match.variable) or _reads(
+            getattr(template_match, "iterable", None), template_match.variable
+        ):
+            continue  # e.g. x.append(len(x))
+
         if isinstance(template_match.root, ast.BinOp):
             if _is_recursive_binop_chain(template_match.root, ast.BitOr):
                 yield before, after
@@ -2936,6 +2986,11 @@ def replace_setcomp_add_with_union(source: str) -> str:
     for before, after, template_match in processing.find_replace(
         source, find, replace, yield_match=True
     ):
+        if _reads(template_match.something_else, template_match.variable) or _reads(
+            getattr(template_match, "iterable", None), template_match.variable
+        ):
+            continue  # e.g. x.append(len(x))
+
         if isinstance(template_match.root, ast.BinOp):
             if _is_recursive_binop_chain(template_match.root, ast.BitOr):
                 yield before, after
@@ -2957,6 +3012,11 @@ def replace_listcomp_append_with_plus(source: str) -> str:
     for before, after, template_match in processing.find_replace(
         source, find, replace, yield_match=True
     ):
+        if _reads(template_match.something_else, template_match.variable) or _reads(
+            getattr(template_match, "iterable", None), template_match.variable
+        ):
+            continue  # e.g. x.append(len(x))
+
         if isinstance(template_match.root, ast.BinOp):
             if _is_recursive_binop_chain(template_match.root, ast.Add):
                 yield before, after
@@ -2974,6 +3034,11 @@ def replace_listcomp_append_with_plus(source: str) -> str:
     for before, after, template_match in processing.find_replace(
         source, find, replace, yield_match=True
     ):
+        if _reads(template_match.something_else, template_match.variable) or _reads(
+            getattr(template_match, "iterable", None), template_match.variable
+        ):
+            continue  # e.g. x.append(len(x))
+
         if isinstance(template_match.root, ast.BinOp):
             if _is_recursive_binop_chain(template_match.root, ast.Add):
                 yield before, after
@@ -3100,6 +3165,10 @@ def replace_collection_add_update_with_collection_literal(source: str) -> str:
     for transaction, (node, *matches) in enumerate(
         core.walk_sequence(root, *template, expand_last=True)
     ):
+        matches = _until_self_reference(matches, node.root.targets[0])
+        if not matches:
+            continue
+
         assigned_value = node.root.value
         other_elts = []
         for m in matches:
